@@ -1,8 +1,8 @@
 (* C11 driver.
    input : a cell name  <transport>:<server|client>:<pool|nopool>:<fault>   (Panic.cell_name)
            or the word  cells      -> all applicable cell names, space separated
-           or the word  accounted  -> table_accounted goroutines_present #unresolved
-   output: <verdict>|<contained 0/1>|<escaped 0/1>|<recovering frame or ->|<stack, innermost first, comma separated>
+           or the word  accounted  -> table_accounted goroutines_present #unresolved format_shielded udp_max_body
+   output: <verdict>|<contained 0/1>|<escaped 0/1>|<recovering frame or ->|<stack, innermost first, comma separated>|<calls during teardown succeed 0/1>
    The verdict is computed by the extracted model over the extracted copy of Gen/RecoverTable.v. *)
 open Common
 
@@ -34,16 +34,17 @@ let run line =
   match String.trim line with
   | "cells" -> String.concat " " (Stdlib.List.map (fun c -> ml_of_coq (Panic.cell_name c)) Panic.cells)
   | "accounted" ->
-    Printf.sprintf "%s %s %d" (b01 (Panic.table_accounted t)) (b01 (Panic.goroutines_present t))
-      (Stdlib.List.length (Panic.unresolved_entries t))
+    Printf.sprintf "%s %s %d %s %d" (b01 (Panic.table_accounted t)) (b01 (Panic.goroutines_present t))
+      (Stdlib.List.length (Panic.unresolved_entries t)) (b01 (Panic.format_shielded t)) (int_of_n Panic.udp_max_body)
   | name ->
     (match Panic.find_cell (coq_of_ml name) with
      | None -> "NOCELL"
      | Some c ->
        let v = Panic.verdict_of t c in
-       Printf.sprintf "%s|%s|%s|%s|%s" (ml_of_coq (Panic.verdict_name v)) (b01 (Panic.contained v))
+       Printf.sprintf "%s|%s|%s|%s|%s|%s" (ml_of_coq (Panic.verdict_name v)) (b01 (Panic.contained v))
          (b01 (Panic.escaped c))
          (match Panic.recovering_frame t c with Some f -> ml_of_coq f | None -> "-")
-         (String.concat "," (Stdlib.List.map ml_of_coq (Panic.stack_names t c))))
+         (String.concat "," (Stdlib.List.map ml_of_coq (Panic.stack_names t c)))
+         (b01 (Panic.during_teardown_ok t c)))
 
 let () = register "main" run
